@@ -40,6 +40,7 @@ def type_scaled_thresholds(kmax=18):
 
 _TB = None
 _TS = None
+_SG = None
 
 
 def coeff(rng):
@@ -85,6 +86,11 @@ def coeff(rng):
         c = modinv_boundary(rng)[0]
     elif k == 13 and rng.random() < 0.5:
         c = digit_pattern(rng)
+    elif k == 14 and rng.random() < 0.5:
+        global _SG
+        if _SG is None:
+            _SG = sublimb_grid() + limb_grid()
+        c = rng.choice(_SG)
     else:
         c = rng.getrandbits(rng.randrange(1, 128))
     if c > M:
@@ -457,4 +463,23 @@ def wrapped_multiples():
                 c = k1 * base - (2 << w)
                 if 0 < c <= M and base == 10 ** n:
                     out.append((c, n))
+    return out
+
+
+SUBLIMB_WORDS = (0, 1, (1 << 31), (1 << 32) - 2, (1 << 32) - 1)
+
+
+def sublimb_grid():
+    """All values made of four 32-bit words from SUBLIMB_WORDS (top word < 2^31): all-ones / empty / single-bit 32-bit
+    limbs, for code that folds or sums 32-bit limbs (digit sums modulo 2^32 - 1, carry folding, reciprocal tables)."""
+    out = []
+    for a in SUBLIMB_WORDS:
+        if a >> 31:
+            continue
+        for b in SUBLIMB_WORDS:
+            for c in SUBLIMB_WORDS:
+                for d in SUBLIMB_WORDS:
+                    v = (a << 96) | (b << 64) | (c << 32) | d
+                    if 0 < v <= M:
+                        out.append(v)
     return out
